@@ -1,6 +1,7 @@
 package props
 
 import (
+	"encoding/json"
 	"runtime"
 	"sync"
 )
@@ -31,3 +32,5 @@ func parallel(n int, f func(i int)) {
 	}
 	wg.Wait()
 }
+
+func jsonUnmarshal(s string, v any) error { return json.Unmarshal([]byte(s), v) }
